@@ -73,6 +73,7 @@ def functions():
            for q in ("_PySignalState.update", "_PySignalState.commit", "_run_wakers", "_PyMemoryState.read",
                      "_PyMemoryState.write", "_PyMemoryState.commit", "_PyEngineState.commit", "_PyTimeline.advance",
                      "_PyTimeline.set_waker", "_PyTriggerState.add_edge_waker", "PySimEngine.advance")]
+    out += [source.describe("amaranth/sim/core.py", "Simulator.add_clock", arith="closed", bound="periods / phases enumerated")]
     out += [source.describe("amaranth/sim/_pyrtl.py", "edge_waker", arith="exact", bound="-"),
             source.describe("amaranth/sim/_pyclock.py", "PyClockProcess.run", arith="exact", bound="period/phase symbolic <= 2^20"),
             source.describe("amaranth/hdl/_time.py", "Period.__init__", arith="bounded stand-in", bound="integer arguments sampled")]
@@ -91,7 +92,7 @@ def tasks(tier):
     D = 2 if tier == "quick" else 3
     ts += [("sig-commute", W), ("sig-commit", W), ("mem", W, False, D), ("mem", W, True, 2), ("mem", 0, False, 1),
            ("engine-commit",), ("edge-waker",), ("timeline", 1), ("timeline", 2), ("timeline", 3), ("clock",),
-           ("frame-rule",), ("tb-order",), ("period",)]
+           ("frame-rule",), ("tb-order",), ("period",), ("add-clock",)]
     from . import c08_engine
     ts += c08_engine.tasks(tier)
     return ts
@@ -373,6 +374,63 @@ def unit_clock():
     return runner.from_exploration(name, Exploration(name, body).run())
 
 
+def unit_add_clock():
+    """Simulator.add_clock contract: the clock process it creates gets exactly the given period and phase in integer
+    femtoseconds; phase None means period / 2; an explicit phase of ZERO stays zero (first toggle at time 0); a second
+    clock on the same domain is refused.  Closed obligations over an enumerated set of Period arguments, plus the first
+    toggle times observed on the real engine."""
+    from amaranth.hdl import Module, Signal, ClockDomain, Period, DriverConflict
+    from amaranth.sim import Simulator
+    from amaranth.sim._pyclock import PyClockProcess
+    obs = []
+
+    def ob(nm, ok, fi):
+        obs.append({"name": f"add_clock::{nm}", "kind": "post", "status": "proved" if ok else "refuted", "backend": "closed", "time_s": 0.0,
+                    **({} if ok else {"failing_input": fi})})
+
+    def mk():
+        m = Module()
+        c = Signal(4, name="c")
+        m.d.sync += c.eq(c + 1)
+        return m, c
+    for per_fs in (10, 1000, 7_000_001):
+        for phase in (None, 0, 1, per_fs // 2, per_fs, 3 * per_fs + 5):
+            m, c = mk()
+            sim = Simulator(m)
+            kw = {} if phase is None else {"phase": Period(fs=phase)}
+            sim.add_clock(Period(fs=per_fs), **kw)
+            procs = [p for p in sim._engine._processes if isinstance(p, PyClockProcess)]
+            want_phase = per_fs // 2 if phase is None else phase
+            ok = len(procs) == 1 and procs[0].period == per_fs and procs[0].phase == want_phase
+            ob(f"period={per_fs}fs,phase={phase}::process-parameters", ok,
+               {"call": f"add_clock(Period(fs={per_fs}), phase={'None' if phase is None else f'Period(fs={phase})'})",
+                "clock process (phase, period)": [(p.phase, p.period) for p in procs], "expected": (want_phase, per_fs)})
+            # first two toggles on the real engine
+            times = []
+
+            async def tb(ctx, times=times):
+                clk = sim._design.fragment.domains["sync"].clk
+                async for v in ctx.changed(clk):
+                    times.append(sim._engine.now)
+                    if len(times) == 3:
+                        break
+            sim.add_testbench(tb)
+            sim.run_until(Period(fs=want_phase + 2 * per_fs + 1))
+            # changed() reports the initial value at time 0 first; the next two reports are the first two toggles
+            ok2 = times == [0, want_phase, want_phase + per_fs // 2]
+            ob(f"period={per_fs}fs,phase={phase}::toggle-times", ok2, {"observed toggle times (fs)": times, "phase": want_phase, "period": per_fs})
+    m, c = mk()
+    sim = Simulator(m)
+    sim.add_clock(Period(fs=10))
+    try:
+        sim.add_clock(Period(fs=10))
+        refused = False
+    except DriverConflict:
+        refused = True
+    ob("second-clock-on-a-domain-refused", refused, {"what": "a second add_clock on the same domain was accepted"})
+    return {"task": "add_clock", "paths": 0, "solver_s": 0.0, "obligations": obs}
+
+
 def unit_frame_rule():
     """Syntactic frame check on generated run() bodies: slots are read only as `slots[k].curr` or
     `slots[k].next` (the latter only for the process's own outputs), and written only through
@@ -489,6 +547,8 @@ def run_task(task):
     if k in ("engine-chain", "engine-proc", "engine-tb-order", "kernel-agrees", "canary-kernel-agrees"):
         from . import c08_engine
         return c08_engine.run_task(task)
+    if k == "add-clock":
+        return unit_add_clock()
     if k == "sig-update":
         return unit_sig_update(task[1], task[2])
     if k == "sig-commute":
